@@ -594,8 +594,15 @@ func (c *Ctx) entryLocks(f *ssa.Function, depth int) lockset {
 	if r, ok := m.entry[f]; ok {
 		return r
 	}
-	if depth > 3 || m.busy[f] || f.Parent() != nil {
+	if depth > 3 || m.busy[f] {
 		return lockset{}
+	}
+	if f.Parent() != nil {
+		m.busy[f] = true
+		r := c.closureEntryLocks(f, depth)
+		delete(m.busy, f)
+		m.entry[f] = r
+		return r
 	}
 	if obj := f.Object(); obj != nil && obj.Exported() {
 		m.entry[f] = lockset{}
@@ -630,8 +637,8 @@ func (c *Ctx) entryLocks(f *ssa.Function, depth int) lockset {
 			for k, v := range c.locksetsOf(g)[in] {
 				here[k] = v
 			}
-			for k, v := range c.entryLocks(topLevel(g), depth+1) {
-				if g.Parent() == nil {
+			for k, v := range c.entryLocks(g, depth+1) {
+				if _, ok := here[k]; !ok {
 					here[k] = v
 				}
 			}
@@ -646,6 +653,112 @@ func (c *Ctx) entryLocks(f *ssa.Function, depth int) lockset {
 		res = lockset{}
 	}
 	m.entry[f] = res
+	return res
+}
+
+// closureEntryLocks: the locks held whenever the function literal f runs: it is either called
+// on the spot in its parent, or handed to a repo function that calls its parameter (a "run
+// this under the lock" helper); literals started with go, deferred, stored or returned have
+// none.
+func (c *Ctx) closureEntryLocks(f *ssa.Function, depth int) lockset {
+	p := f.Parent()
+	var res lockset
+	unknown := false
+	add := func(ls lockset) {
+		if res == nil {
+			res = ls.clone()
+		} else {
+			res = meet(res, ls)
+		}
+	}
+	at := func(g *ssa.Function, in ssa.Instruction) lockset {
+		here := lockset{}
+		for k, v := range c.locksetsOf(g)[in] {
+			here[k] = v
+		}
+		for k, v := range c.entryLocks(g, depth+1) {
+			if _, ok := here[k]; !ok {
+				here[k] = v
+			}
+		}
+		return here
+	}
+	eachInstr(p, func(in ssa.Instruction) {
+		mc, ok := in.(*ssa.MakeClosure)
+		if !ok || mc.Fn != ssa.Value(f) {
+			return
+		}
+		refs := mc.Referrers()
+		if refs == nil {
+			return
+		}
+		for _, r := range *refs {
+			call, isCall := r.(ssa.CallInstruction)
+			if !isCall {
+				if _, isDbg := r.(*ssa.DebugRef); !isDbg {
+					unknown = true
+				}
+				continue
+			}
+			if _, plain := r.(*ssa.Call); !plain {
+				unknown = true // go / defer
+				continue
+			}
+			if call.Common().Value == ssa.Value(mc) {
+				add(at(p, r))
+				continue
+			}
+			// handed to a repo function as an argument
+			w := call.Common().StaticCallee()
+			if w == nil || w.Blocks == nil || w.Pkg == nil || !inRepo(w.Pkg.Pkg) {
+				unknown = true
+				continue
+			}
+			outer := at(p, r)
+			for i, a := range call.Common().Args {
+				if a != ssa.Value(mc) || i >= len(w.Params) {
+					continue
+				}
+				param := w.Params[i]
+				prefs := param.Referrers()
+				if prefs == nil {
+					unknown = true
+					continue
+				}
+				called := false
+				for _, pr := range *prefs {
+					pc, ok := pr.(ssa.CallInstruction)
+					if !ok || pc.Common().Value != ssa.Value(param) {
+						if _, isDbg := pr.(*ssa.DebugRef); !isDbg {
+							unknown = true
+						}
+						continue
+					}
+					if _, plain := pr.(*ssa.Call); !plain {
+						unknown = true
+						continue
+					}
+					called = true
+					inner := lockset{}
+					for k, v := range c.locksetsOf(w)[pr] {
+						inner[k] = v
+					}
+					for k, v := range outer {
+						if _, ok := inner[k]; !ok {
+							inner[k] = v
+						}
+					}
+					add(inner)
+				}
+				if !called {
+					unknown = true
+				}
+			}
+		}
+	})
+	if unknown || res == nil {
+		return lockset{}
+	}
 	return res
 }
 
@@ -747,10 +860,7 @@ func (c *Ctx) ruleL3() {
 				return
 			}
 			ls := c.locksetsOf(f)
-			el := lockset{}
-			if f.Parent() == nil {
-				el = c.entryLocks(f, 0)
-			}
+			el := c.entryLocks(f, 0)
 			for _, ld := range drains {
 				held := lockset{}
 				for kk, v := range el {
@@ -1884,6 +1994,11 @@ func (c *Ctx) ruleI10() {
 					held[k] = m
 				}
 			}
+			for k, m := range c.entryLocks(f, 0) {
+				if m == "W" {
+					held[k] = m
+				}
+			}
 			if viewLocks == nil {
 				viewLocks, firstWrite = held, in
 			} else {
@@ -1904,8 +2019,11 @@ func (c *Ctx) ruleI10() {
 			cons := fmt.Sprintf("%s→%s()#under-view-lock#%d", fnKey(f), methodName(call), k)
 			k++
 			missing := []string{}
+			el := c.entryLocks(f, 0)
 			for cls := range viewLocks {
-				if _, ok := ls[call][cls]; !ok {
+				_, here := ls[call][cls]
+				_, fromCaller := el[cls]
+				if !here && !fromCaller {
 					missing = append(missing, cls)
 				}
 			}
@@ -2034,10 +2152,7 @@ func (c *Ctx) ruleR5() {
 			continue
 		}
 		ls := c.locksetsOf(f)
-		el := lockset{}
-		if f.Parent() == nil {
-			el = c.entryLocks(f, 0)
-		}
+		el := c.entryLocks(f, 0)
 		for i, w := range writes {
 			// only writes of a value computed from a read
 			var rv []ssa.Value
@@ -2569,10 +2684,7 @@ func (c *Ctx) ruleL5() {
 			if ls == nil {
 				ls = c.locksetsOf(f)
 			}
-			el := lockset{}
-			if f.Parent() == nil {
-				el = c.entryLocks(f, 0)
-			}
+			el := c.entryLocks(f, 0)
 			atLookup := lockset{}
 			for kk, v := range el {
 				atLookup[kk] = v
